@@ -635,6 +635,54 @@ def read_bytes(path) -> bytes:
         return f.read()
 
 
+def run_session_chunked(path, ops, chunks):
+    """like run_session (no snapshots), but the records (`w` ops, which must be consecutive) are handed to
+    `GroFile.writelines` in batches of the sizes in `chunks` (zeros = an empty list); records left over go one by
+    one through writeline.  The model sees the plain op list: writelines(l) is writeline for each element.
+    (Seed C13-5: a bulk write that emits a stray terminator for an empty remaining block.)"""
+    from gaddlemaps.parsers import GroFile
+    ops = resolve_ops(ops)
+    errs = [None] * len(ops)
+    widx = [i for i, o in enumerate(ops) if o[0] == "w"]
+    with warnings.catch_warnings():
+        warnings.simplefilter("ignore")
+        g = GroFile(path, "w")
+        i = 0
+        batches = list(chunks)
+        done_w = 0
+        while i < len(ops):
+            op = ops[i]
+            if op[0] == "w":
+                n = batches.pop(0) if batches else 1
+                while n == 0:           # empty writelines calls before this record
+                    try:
+                        g.writelines([])
+                    except Exception as e:   # noqa: BLE001
+                        errs[i] = type(e).__name__
+                    n = batches.pop(0) if batches else 1
+                n = min(n, len(widx) - done_w)
+                batch = [ops[j] for j in widx[done_w:done_w + n]]
+                recs = [(int(r[1][0]), str(r[1][1]), str(r[1][2]), int(r[1][3])) + tuple(float(v) for v in r[1][4:])
+                        for r in batch]
+                try:
+                    g.writelines(recs)
+                except Exception as e:   # noqa: BLE001
+                    errs[i] = type(e).__name__
+                done_w += n
+                i = widx[done_w - 1] + 1
+                continue
+            try:
+                apply_op(g, op)
+            except Exception as e:      # noqa: BLE001
+                errs[i] = type(e).__name__
+            i += 1
+        try:
+            g._file.close()
+        except Exception:               # noqa: BLE001
+            pass
+    return errs, read_bytes(path), []
+
+
 def run_session(path, ops, snap=False):
     """drive the real GroFile; returns (errors per op, final bytes, snapshots)
     snapshots: list of (op_index, write_index_in_op or None for 'after op', bytes)"""
